@@ -138,3 +138,11 @@ func init() {
 		}
 	}})
 }
+
+func init() {
+	register(&Property{ID: "DBG9", Patterns: []string{"./..."}, Run: func(p *Program, r *Report) {
+		if fn := p.Func(os.Getenv("DBG_FN")); fn != nil {
+			fn.WriteTo(os.Stderr)
+		}
+	}})
+}
